@@ -13,6 +13,7 @@ pub mod c08;
 pub mod c09;
 pub mod c10;
 pub mod c11;
+pub mod c12;
 pub mod c13;
 pub mod c14;
 pub mod c16;
@@ -69,6 +70,7 @@ pub async fn dispatch(prop: &str, ctx: &Ctx, rep: &mut Report) -> bool {
         "C09" => c09::run(ctx, rep).await,
         "C10" => c10::run(ctx, rep).await,
         "C11" => c11::run(ctx, rep).await,
+        "C12" => c12::run(ctx, rep).await,
         "C13" => c13::run(ctx, rep).await,
         "C14" => c14::run(ctx, rep).await,
         "C16" => c16::run(ctx, rep).await,
